@@ -313,8 +313,13 @@ pub fn run(data: &[u8], ctx: &mut Ctx) -> Outcome {
                 present[flat[*i].0] += 1;
             }
             let want_ok = present.iter().zip(groups.iter()).filter(|(p, g)| **p >= g.0).count() >= group_threshold;
-            let style = src.below(3);
+            let style = src.below(4);
             let held: Vec<Envelope> = match style {
+                3 => {
+                    // every share envelope but the first with its (encrypted) subject elided by the holder: the
+                    // share is still readable, the digest unchanged; only the first envelope gets decrypted
+                    subset.iter().enumerate().map(|(k, i)| if k == 0 { flat[*i].1.clone() } else { flat[*i].1.elide_removing_target(&flat[*i].1.subject()) }).collect()
+                }
                 0 => {
                     // merged: every share of the subset carried by ONE envelope (the first one)
                     let mut carrier = flat[subset[0]].1.clone();
@@ -357,7 +362,7 @@ pub fn run(data: &[u8], ctx: &mut Ctx) -> Outcome {
                         .collect()
                 }
             };
-            let sname = ["merged-into-one", "merged-in-pairs", "decorated-share-assertions"][style];
+            let sname = ["merged-into-one", "merged-in-pairs", "decorated-share-assertions", "later-subjects-elided"][style];
             ctx.class(&format!("held:{}:{}", sname, if want_ok { "quorum" } else { "no-quorum" }));
             let refs: Vec<&Envelope> = held.iter().collect();
             let r = nopanic!(ctx, Envelope::sskr_join(&refs), "held", "C11/held");
